@@ -221,6 +221,10 @@ class _ReadSourceGenerator:
                     # Padding inside a block is relative to its start, which is only aligned for the first field
                     yield from flush()
 
+                if current_block and field.offset is not None and field.offset < current_offset:
+                    # A block can only hold fields at ascending offsets, a field that moves backwards starts a new one
+                    yield from flush()
+
                 if not current_block and field.offset is not None and field.offset != current_offset:
                     # The block starts behind a gap (e.g. alignment padding after a nested structure or bit field)
                     yield f"stream.seek(o + {field.offset})"
